@@ -303,9 +303,8 @@ func c17History(c *core.Ctx, r *core.Rand, idx int) error {
 				continue
 			}
 			if err != nil || has != want {
-				if !(env.base != "" && key == "") { // the empty key names the shard directory itself
-					fail("C17/has-wrong", fmt.Sprint(has, err), fmt.Sprint(want), "")
-				}
+				// (the empty key included: on fsstore its path is a shard directory, and it is never stored)
+				fail("C17/has-wrong", fmt.Sprint(has, err), fmt.Sprint(want), "")
 				continue
 			}
 			kvOps = append(kvOps, "H"+hx([]byte(key)))
@@ -354,9 +353,6 @@ func c17History(c *core.Ctx, r *core.Rand, idx int) error {
 			}
 			want, have := model[key]
 			hist = append(hist, form+"("+hx([]byte(key))+")")
-			if env.base != "" && key == "" {
-				continue
-			}
 			if have {
 				if gerr != nil || !bytes.Equal(got, want) {
 					fail("C17/get-wrong", fmt.Sprint(hx(got), gerr), hx(want), form+" does not return the stored bytes")
@@ -385,9 +381,6 @@ func c17History(c *core.Ctx, r *core.Rand, idx int) error {
 				hist = append(hist, "ClosePeek")
 			} else {
 				key := keys[r.Intn(len(keys))]
-				if env.base != "" && key == "" {
-					continue
-				}
 				view, cl, err := storage.Peek(ctx, env.store, key)
 				hist = append(hist, "PeekHeld("+hx([]byte(key))+")")
 				if err != nil || !bytes.Equal(view, model[key]) {
